@@ -105,12 +105,29 @@ fn sanitize_function(
     Ok(Value::String(sanitized))
 }
 
+/// The optional `length` argument: the default when absent, otherwise a non-negative integer
+/// (a value of another type was silently replaced by the default, so the result could be longer
+/// than the `length` that was asked for)
+fn length_arg(
+    args: &std::collections::HashMap<String, Value>,
+    default: usize,
+) -> Result<usize, tera::Error> {
+    match args.get("length") {
+        None => Ok(default),
+        Some(value) => value.as_u64().map(|n| n as usize).ok_or_else(|| {
+            tera::Error::msg(format!(
+                "length must be a non-negative integer, got {value}"
+            ))
+        }),
+    }
+}
+
 /// Generate hex hash of string with configurable length
 /// Usage: {{ hash(value, length=7) }}
 fn hash_function(args: &std::collections::HashMap<String, Value>) -> Result<Value, tera::Error> {
     let input = get_string_value(args, "value")?;
 
-    let length = args.get("length").and_then(|v| v.as_u64()).unwrap_or(7) as usize;
+    let length = length_arg(args, 7)?;
 
     let mut hasher = DefaultHasher::new();
     input.hash(&mut hasher);
@@ -132,7 +149,7 @@ fn hash_int_function(
 ) -> Result<Value, tera::Error> {
     let input = get_string_value(args, "value")?;
 
-    let length = args.get("length").and_then(|v| v.as_u64()).unwrap_or(7) as usize;
+    let length = length_arg(args, 7)?;
 
     let allow_leading_zero = args
         .get("allow_leading_zero")
@@ -172,7 +189,7 @@ fn hash_int_function(
 fn prefix_function(args: &std::collections::HashMap<String, Value>) -> Result<Value, tera::Error> {
     let input = get_string_value(args, "value")?;
 
-    let length = args.get("length").and_then(|v| v.as_u64()).unwrap_or(10) as usize;
+    let length = length_arg(args, 10)?;
 
     // at most `length` characters (a byte slice would panic inside a multi-byte character)
     let prefix: String = input.chars().take(length).collect();
